@@ -1,13 +1,17 @@
 #!/bin/bash
-# usage: tools/try_seed.sh <patch file> <prop> [<prop> ...]   -- applies the patch to /repo, runs quick checks, reverts
+# usage: tools/try_seed.sh <patch file> <prop> [<prop> ...]   -- applies the patch to /repo, runs quick checks, reverts.
+# The revert runs from an EXIT trap (also on SIGPIPE/SIGTERM), so a killed pipeline cannot leave the patch applied.
 P="$(realpath "$1")"; shift
 cd /verif
 if [ -n "$(git -C /repo status --porcelain)" ]; then echo "/repo not clean"; exit 2; fi
 if ! (cd /repo && patch -p1 -F3 -s --no-backup-if-mismatch --dry-run < "$P" >/dev/null 2>&1); then echo "PATCH DOES NOT APPLY: $P"; exit 2; fi
+trap 'git -C /repo checkout -- . ; git -C /repo status --short' EXIT
+trap 'exit 130' INT TERM PIPE HUP
 (cd /repo && patch -p1 -F3 -s --no-backup-if-mismatch < "$P")
+OUT=$(mktemp)
 for id in "$@"; do
-  ./check "$id" --tier "${TIER:-quick}" --no-evidence 2>&1 | grep -E "^\[|VIOLATION|HARNESS|INCONCLUSIVE|KNOWN|^  violation" | cut -c1-${COLS:-260} | head -${LINES_MAX:-8}
-  echo "-> exit ${PIPESTATUS[0]} for $id"
+  ./check "$id" --tier "${TIER:-quick}" --no-evidence > "$OUT" 2>&1; rc=$?
+  grep -E "^\[|VIOLATION|HARNESS|INCONCLUSIVE|KNOWN|^  violation" "$OUT" | cut -c1-${COLS:-260} | head -${LINES_MAX:-8}
+  echo "-> exit $rc for $id"
 done
-git -C /repo checkout -- .
-git -C /repo status --short
+rm -f "$OUT"
